@@ -1,7 +1,7 @@
 #!/bin/sh
 # usage: keep_seeded.sh <worktree> <k> <ID>    copies a CONFIRMED change into /verif/seeded/<ID>-<k>/
-WT=$1; K=$2; ID=$3
-D=/verif/seeded/$ID-$K
+WT=$1; K=$2; ID=$3; OFF=${4:-0}
+D=/verif/seeded/$ID-$((K+OFF))
 mkdir -p $D
 cp $WT/OUT/patch$K.diff $D/patch.diff
 cp $WT/OUT/demo$K.rs $D/demo.rs
